@@ -328,6 +328,18 @@ class Chain:
         self.frames += 1
         here = "%s @ %s:%s" % (f.short, self.prog.rel(f.file), site.line if site != "exit" else "exit")
         local = self.frame_facts(f, site, helpers=True)
+        ctor_eq, own_fields = set(), set()
+        if site == "exit" and f.kind == "ctor":
+            # at the end of a constructor every member with a plain initialiser equals that initialiser (unless written again)
+            rewritten = {k[1] for (_, _, k) in f._writes() if k[0] == "field"}
+            for ci in f.ctor_inits():
+                m = ci.get("member")
+                if m and ci.c and m not in rewritten:
+                    e = canon(ci.c[0], None)
+                    if "?" not in e and not LTOK.search(e) and set(PTOK.findall(e)) <= self._stable_params(f):
+                        local.append(("rel", "this." + m, (0, 0, None), e))
+                        ctor_eq.add(("rel", "this." + m, (0, 0, None), e))
+                        own_fields.add(m)
         facts = closure(list(carried) + local)
         opaque = self.helper_facts(f, site)[1]
         shown = sorted({lit_text(l) for l in facts if any(t in lit_terms(goal) or any(t in x for x in lit_terms(goal)) for t in lit_terms(l))})
@@ -378,6 +390,8 @@ class Chain:
             rest = [FTOK.sub("", t) for t in ts]
             if fields and f.cls and not any(PTOK.search(r) or LTOK.search(r) or "?" in r for r in rest) and len(fields) == 1:
                 fld = next(iter(fields))
+                if fld in own_fields:
+                    continue          # this very constructor initialises it: the parameter route says the same
                 ftok = "this." + fld
                 inits = self.field_inits(f.cls, fld)
                 if inits is None:
@@ -429,8 +443,9 @@ class Chain:
             liftable = [l for l in F if all(not LTOK.search(t) and not FTOK.search(t) and "?" not in t and set(PTOK.findall(t)) <= stable
                                             for t in lit_terms(l))]
             ptoks = {"p:" + n_ for n_ in names}
-            lost = any(l not in liftable and not _is_lookup(l) and any(tok in t for t in lit_terms(l) for tok in ptoks) for l in F)
+            lost = any(l not in liftable and l not in ctor_eq and not _is_lookup(l) and any(tok in t for t in lit_terms(l) for tok in ptoks) for l in F)
             if not self.is_internal(f) and not f.get("lambda"):
+                self._frame_ctor_eq = ctor_eq
                 results.append(self._public_frame(f, site, g, F, trail) if not (tainted or lost) else
                                ("unk", "a check on the way constrains the value in a way this analysis does not carry along "
                                        "(object state, locals, or a rejecting call that is not summarised)", trail))
@@ -520,6 +535,8 @@ class Chain:
             ts = lit_terms(l)
             if not any(t in x for x in ts):
                 continue
+            if l in getattr(self, "_frame_ctor_eq", ()):
+                continue          # member == its own initialiser: defines the member, constrains nothing
             if l[0] in ("mod", "cmp") and l[1] == t:
                 about.append(l)
             elif l[0] == "pred" and l[2] == t and l[1] in (POW2, PRIME):
